@@ -4,7 +4,7 @@
 From Coq Require Import List NArith Bool Arith Sorted.
 From Coq Require Import Strings.Byte.
 Require Import BS.Bytes BS.Common BS.Api BS.Layout BS.Format BS.FormatFacts BS.Spec BS.SpecStep BS.Sections.
-Require Import BS.FS BS.FSFacts BS.Meta BS.MetaFacts BS.Header BS.Reader BS.ReaderFacts BS.Index BS.Data BS.DataFacts BS.Seek BS.SeekFacts BS.Series BS.SeriesFacts BS.ReadAllFacts BS.CacheFacts.
+Require Import BS.FS BS.FSFacts BS.Meta BS.MetaFacts BS.Header BS.Reader BS.ReaderFacts BS.Index BS.Data BS.DataFacts BS.Seek BS.SeekFacts BS.Series BS.SeriesFacts BS.ReadAllFacts BS.CacheFacts BS.LevelFacts.
 Import ListNotations.
 
 (* (I) the line estimate of a cache level never panics (saturating subtraction after the fix), except in the
@@ -40,5 +40,31 @@ Theorem C11_level_is_configured : forall (t:list dsample) cur n lo hi d,
   pick_level cur t n lo hi = Ok d -> d = cur \/ In d (map ds_data t).
 Proof. exact pick_level_mem. Qed.
 Print Assumptions C11_level_is_configured.
-(* partial: that the estimate loop itself never panics (pick_level returns Ok) is proved only for the arithmetic
-   (C11_estimate_total); that its unreachable!() arm is not reached under RepS is not proved. The state after reopen: C09. *)
+(* (I) RoughPos::new never produces the pair of search areas that estimate_lines marks unreachable!(): on a series in
+   its invariant it answers Ok with an admissible pair, or a range error - never a panic *)
+Theorem C11_unreachable_arm_is_unreachable : forall fs sr p hdr ihdr l, RepH fs sr p hdr ihdr l -> forall lo hi,
+  match rough_new (s_data sr) lo hi with
+  | Ok r => match start_area_ r, end_area_ r with STillEnd _, EWindow _ _ => False | _, _ => True end
+  | Err _ => True | Panic => False | OutOfFuel => False end.
+Proof. exact rough_new_areas. Qed.
+Print Assumptions C11_unreachable_arm_is_unreachable.
+
+(* hence the estimate loop returns a level for every cache configuration, every n and every pair of bounds *)
+Theorem C11_level_loop_total : forall p fs l n lo hi down cs, Forall2 (cache_ok p fs l) down cs ->
+  forall cur, exists d, pick_level cur down n lo hi = Ok d.
+Proof. exact pick_level_total. Qed.
+Print Assumptions C11_level_loop_total.
+
+(* C11 in one statement: under the invariant of a series with cache levels whose bucket sizes were configured in ascending
+   order, for every n >= 1 and every pair of bounds read_n answers with the uniform bucket means (at most 2n of them) of
+   the lines of one of the levels inside the range, or with a range error when that level has no line there *)
+Theorem C11_read_n_total : forall p fs s hdr ihdr l cs n lo hi,
+  RepS fs s p hdr ihdr l cs -> StronglySorted le (map fst cs) -> (1 <= n)%N ->
+  exists lev, In lev (levels p l cs)
+    /\ ((exists b, b >= 1 /\ read_n s n lo hi fs = (fs, Ok (resample p b (select lo hi lev)))
+                   /\ (len (resample p b (select lo hi lev)) <= 2 * n)%N)
+        \/ (select lo hi lev = [] /\ read_n s n lo hi fs = (fs, Err ERange))).
+Proof. exact read_n_levels_total. Qed.
+Print Assumptions C11_read_n_total.
+(* not proved: WHICH level the loop settles on is the one Layer S's read_n_allowed prefers (the judge checks the answer
+   against every admissible level); the state after reopen is C09. *)
